@@ -47,6 +47,17 @@ def from_path_model(cx):
         t = es(fw.tail).replace(' ', '')
         derives_debug = any(a.get('name') == 'derive' and 'Debug' in str(a.get('meta')) for a in en.get('attrs', []))
         m = re.fullmatch(r'(?:Self|Trait)::VARIANTS\[\.\.\(?(?:Self|Trait)::VARIANTS\.len\(\)-1\)?\]\.iter\(\)\.copied\(\)\.find\(\|([a-z_]+)\|(.+)\)', t)
+        excluded = None
+        if not m:
+            # the helper variant dropped by name instead of by position: `.filter(|t| *t != Self::_Nothing)`
+            m2 = re.fullmatch(r'(?:Self|Trait)::VARIANTS\.iter\(\)\.copied\(\)\.filter\(\|([a-z_]+)\|\(?\*?\1!=(?:Self|Trait)::([A-Za-z_0-9]+)\)?\)\.find\(\|([a-z_]+)\|(.+)\)', t)
+            if m2:
+                excluded = m2.group(2)
+
+                class _M:
+                    def group(self_, i):
+                        return {1: m2.group(3), 2: m2.group(4)}[i]
+                m = _M()
         if m and derives_debug:
             v_, body = m.group(1), m.group(2)
             while body.startswith('(') and body.endswith(')'):
@@ -65,6 +76,8 @@ def from_path_model(cx):
                             if 'get_ident()' in it and 'to_string()' in it:
                                 ok_subject = True
                     if ok_subject:
+                        if excluded is not None:
+                            return ('variants-lookup', {n_: (n_, c_) for n_, c_ in variants if n_ != excluded}, False)
                         return ('variants-lookup', {n_: (n_, c_) for n_, c_ in variants[:-1]}, False)
         return ('unknown', {}, True)
     return ('unknown', {}, True)
